@@ -465,7 +465,29 @@ func opaqueSignatures(depth int) []*refmodel.Type {
 	for _, s := range objectSigs {
 		comp = append(comp, refmodel.MustParse(s))
 	}
+	for _, s := range namedSigs {
+		comp = append(comp, refmodel.MustParse(s))
+	}
 	return comp
+}
+
+// namedSigs: struct annotations in every shape the signature grammar admits
+// (template-style names List<double>, underscores, digits, one-letter and long
+// names, member names that resemble type letters) at top level, inside lists,
+// maps, tuples, other structs and next to dynamic values. The other
+// signatures of the universe all name their structs "S" with members a, b.
+var namedSigs = []string{
+	"(ff)<ValueConfidence<float>,value,confidence>",
+	"[(ff)<ValueConfidence<float>,value,confidence>]",
+	"{s(ff)<ValueConfidence<float>,value,confidence>}",
+	"((ff)<ValueConfidence<float>,value,confidence>i)",
+	"((i)<List<double>,a>(s)<Map<a>,b>)<Outer_1,first,second>",
+	"(m(i)<List<double>,a>)<WithValue,v,l>",
+	"[{I(sb)<x<Y_1>,s,b>}]",
+	"(is)<A,i,s>",
+	"(is)<a,m,o>",
+	"(i)<Zz9_,x_>",
+	"(i(s)<Inner,v>)<LongStructureNameWithManyCharacters0123456789,first_member,second_member>",
 }
 
 func familyOpaque(depth int) (nsigs int, nvals int64) {
@@ -587,6 +609,7 @@ var (
 	lengthSweep   map[string]interface{}
 	valueOfValue  map[string]interface{}
 	listShape     map[string]interface{}
+	retained      int
 )
 
 func main() {
@@ -603,6 +626,7 @@ func main() {
 			"x every length 0..300 (s, r, m-signature taken alone: every length 0..4200) and, around every power of two from 512 to 64 KiB (thorough: 1 MiB), 2^k-1, 2^k, 2^k+1 and 2^k+2^(k-1), plus 70000 (thorough: s and r alone and at value.List(x, Int), m-signature alone, at every length 0..70000 under the delivery sentinel follows/unfragmented) " +
 			"x the positions alone, value.List(x, Int), value.List(Int, x), Opaque (i t), Opaque (t i), Opaque [t, t'], Opaque ([m<t>, m<i>]) (r: the first three only; coverage.length_sweep lists positions and lengths per leaf) - the full product, no subset - with position-dependent content without period, " +
 			"each value under 9 deliveries (the 6 below, sentinel follows/4093-byte reads, *bytes.Buffer and *bufio.Reader over the encoding and a sentinel); a failure is attributed to the smallest failing length (bisection between enumerated lengths). " +
+			"retained = every list value of depth <= 2 plus raw buffers, strings and opaque (s[C]) data of 0..70000 bytes decoded from a *bytes.Buffer whose storage is then overwritten and reused: the decoded value still re-encodes to the original bytes; " +
 			"list-shape = value.List values whose shape grows: a list of n one-element lists (n = 0..70, 100, 127..129, 255..257, 1000, 4096), n rows of n pairs (n <= 12, 16, 32), a tree of lists of height <= 8 (255 lists), a chain of n nested lists (n = 0..70, 100, 128, 200, 256; also hanging at the last position), 3 deliveries, the smallest failing size of each kind is reported; " +
 			"value-of-value = dynamic values whose own signature is m: W(x,k) = m<x> inside k further dynamic values, k = 0 (control), 1, 2, 3, x in 26 innermost data (the 11 scalar kinds, \"ab\", \"\", void, [i] with one and no element, [s], [m], (is), {sI} with one and no entry, (i)<S,a>, (mi), [(is)], {s[i]}, ()) " +
 			"x 25 positions inside an opaque composite (member of a tuple / struct: sole, non-last, last, both, before / after a plain dynamic value; element of a list inside a tuple and of a list of lists: sole, non-last, last, both; value and key of a map: sole, non-last, last, key and value; member of a tuple, list or map that is itself carried by a dynamic value), full oracle, " +
@@ -614,7 +638,7 @@ func main() {
 		extra := map[string]interface{}{
 			"depth": depth, "opaque_composite_signatures": nsigs, "opaque_values": nvals, "list_values": nlists,
 			"deliveries_per_value": len(deliveries), "deliveries_per_opaque_value": len(opaqueDeliveries), "observations_not_decided": obs,
-			"length_sweep": lengthSweep, "value_of_value": valueOfValue, "list_shape": listShape,
+			"length_sweep": lengthSweep, "value_of_value": valueOfValue, "list_shape": listShape, "retained_values": retained,
 		}
 		assumptions := []string{
 			"opaque data are produced by the reference model written from doc/about-qimessaging.md; 'r' is taken as count + bytes; 8/16-bit integers as little-endian fixed width",
@@ -635,6 +659,7 @@ func main() {
 	valueOfValue = familyValueOfValue(depth)
 	nlists = familyLists(depth)
 	listShape = familyListShape(run.Thorough())
+	retained = familyRetained()
 	nsigs, nvals = familyOpaque(depth)
 	os.Exit(finish())
 }
